@@ -32,7 +32,7 @@ CLASSES = [
     'high_bytes_header', 'high_bytes_payload', 'cmd_letters', 'userids', 'domain_len', 'data_headers', 'login_len',
     'fragsize_N', 'fragsize_big_tun', 'probe_R', 'raw_frames', 'raw_login', 'tun_sizes', 'tun_short', 'upstream_short', 'tun_client_to_client',
     'forwarding', 'reassembly', 'qtypes_longnames', 'timejump_small', 'timejump_big', 'expired_traffic', 'reclaim_V',
-    'stale_raw3', 'raw_uid_bounds', 'pointer_at_len_bind',
+    'stale_raw3', 'raw_uid_bounds', 'pointer_at_len_bind', 'cmd_arg_sweep',
 ]
 
 
@@ -752,6 +752,25 @@ class C05Gen(srvlib.HistGen):
             args = self.d_valid(r.choice(self.KINDS), uid, g)[1:]
         self.hq(self.hostile_name(bytes([c]) + args), addr=a, qtype=r.choice(QTYPES_ALL))
 
+    def h_cmd_arg_sweep(self):
+        """the option commands of a logged-in session from its own address, the argument character swept over all byte
+        values: codec switch 's' (5-bit values beyond the known codecs), downstream options 'o', and their upper-case forms.
+        Values that would really change the guardian's settings are left out (the guardian goes on talking as before)."""
+        r = self.rng
+        gs = [g for g in self.guards if g.uid is not None and getattr(g, 'state', None) in PROBEABLE and getattr(g, 'state', None) != 'raw']
+        if not gs:
+            return self.h_cmd_letters()
+        g = r.choice(gs)
+        kind = b'sSoO'[self.sw.next('argsweep_kind', 4)]
+        v = self.sw.next('argsweep_val_%d' % kind, 256)
+        if v in (0, 0x2e):
+            v = 0x80
+        if kind in b'sS' and v in b'fghFGH0':
+            v = ord('1') + self.sw.next('argsweep_hi', 5)           # '1'..'5' decode to 27..31
+        if kind in b'oO' and v in b'tsuvrliTSUVRLI':
+            v = ord('w')
+        self.hq(self.hostile_name(bytes([kind]) + b32c(g.uid) + bytes([v]) + self.cmc3()), addr=g.addr)
+
     def h_userids(self):
         """all userids 0..255 in both encodings"""
         r = self.rng
@@ -1138,7 +1157,7 @@ class C05Gen(srvlib.HistGen):
         ('domain_len', 2), ('data_headers', 6), ('login_len', 4), ('fragsize_N', 4), ('fragsize_big_tun', 1), ('probe_R', 4),
         ('raw_frames', 8), ('raw_login', 3), ('tun_sizes', 3), ('tun_short', 2), ('upstream_short', 2), ('tun_client_to_client', 2), ('forwarding', 2),
         ('qtypes_longnames', 4), ('stock_hostile', 4), ('timejump_small', 0.6), ('timejump_big', 0.8), ('stale_raw3', 1.5), ('raw_uid_bounds', 1.5),
-        ('pointer_at_len_bind', 1.5), ('reassembly', 1.0),
+        ('pointer_at_len_bind', 1.5), ('reassembly', 1.0), ('cmd_arg_sweep', 5),
     ]
 
     def hostile_step(self, name=None):
@@ -1162,7 +1181,7 @@ class C05Gen(srvlib.HistGen):
             'tun_client_to_client': self.h_tun_client_to_client, 'forwarding': self.h_forwarding,
             'qtypes_longnames': self.h_qtypes_longnames, 'stock_hostile': self.h_stock, 'timejump_small': self.h_timejump_small,
             'timejump_big': self.h_timejump_big, 'stale_raw3': self.h_stale_raw3, 'raw_uid_bounds': self.h_raw_uid_bounds, 'pointer_at_len_bind': self.h_pointer_at_len,
-            'reassembly': self.h_reassembly,
+            'reassembly': self.h_reassembly, 'cmd_arg_sweep': self.h_cmd_arg_sweep,
         }[name]
         if name in ('timejump_small', 'timejump_big'):
             self.sync()
